@@ -83,6 +83,7 @@ def jobs_for(prop, tier):
                     S("rpfs", 2, live=1, prios=[0], td=1, drain=1, age_cap=2),
                     S("buffer", 1, live=2, mode="FIFO", delays=[0], drain=1, age_cap=0.5),
                     S("buffer", 2, live=1, mode="FIFO", delays=[0, 1], drain=1, age_cap=1),
+                    S("buffer", 2, live=2, mode="FIFO", delays=[0], drain=1, age_cap=0.5, notime=1),
                     S("buffer", 1, live=2, mode="LIFO", delays=[0], drain=1, age_cap=0.5),
                     S("buffer", 1, live=1, mode="FIFO", delays=[1], age_cap=2),
                     S("fleet", 1, live=1, delay=2, transit=1, drain=1, age_cap=3, grid=1),
